@@ -18,6 +18,14 @@ CVI = 'dispenso/detail/concurrent_vector_impl.h'
 LOADNULL = r'!this->buffers_\[([^\]]+)\]\.load\(std::memory_order_acquire\)'
 
 
+# the empty spin `while (!buffers_[b].load(acquire)) {}`: on exit bucket b has been seen published (partial correctness; the bucket
+# expression is captured as written).  Strategy tests anywhere in these functions are rendered against the STRATEGY instantiation.
+SPIN = lambda m: 'G_wait_published(%s);   /* spin until published (progress: not decided) */' % re.search(LOADNULL, m.group(0)).group(1)
+STRAT = [('R4', r'kStrategy\s*(==|!=)\s*ConcurrentVectorReallocStrategy::kFullBufferAhead', r'(STRATEGY \1 0)', 'opt'),
+         ('R4', r'kStrategy\s*(==|!=)\s*ConcurrentVectorReallocStrategy::kHalfBufferAhead', r'(STRATEGY \1 1)', 'opt'),
+         ('R4', r'kStrategy\s*(==|!=)\s*ConcurrentVectorReallocStrategy::kAsNeeded', r'(STRATEGY \1 2)', 'opt')]
+
+
 def build(ctx):
     r = ctx.repo
     ctx.emit('CV_bucketAndSubIndex.body.inc', r.function(CVH, r'DISPENSO_INLINE\s+cv::BucketInfo\s+bucketAndSubIndex\s*\(\s*size_t\s+index\s*\)\s*const'), must_fire=['R17', 'R10', 'R11'],
@@ -35,7 +43,7 @@ def build(ctx):
                    ('R12', r'cacheUpdate\(binfo\.bucket \+ 1,\s*newBuf\);', '', 1),
                    ('R12', r'this->buffers_\[([^\]]+)\]\.store\(newBuf,\s*std::memory_order_release\);', r'G_single_alloc(\1, newBuf_cap);', 1),
                    ('R12', r'shouldDealloc_\[[^\]]+\]\s*=\s*true;', '', 1),
-                   ('R16', ('block', r'while\s*\(DISPENSO_EXPECT\(!this->buffers_\[binfo\.bucket\]\.load\(std::memory_order_acquire\),\s*0\)\)\s*(?=\{)'), '/* spin until the bucket this index lives in has been published by its allocator (progress: not decided) */', 1)])
+                   ('R16', ('block', r'while\s*\(DISPENSO_EXPECT\(' + LOADNULL + r',\s*0\)\)\s*(?=\{)'), SPIN, 1)] + STRAT)
     rng = r.function(CVI, r'void\s+allocAsNecessaryImpl\s*\(\s*const\s+BucketInfo&\s+binfo\s*,\s*ssize_t\s+rangeLen\s*,\s*const\s+BucketInfo&\s+bend\s*,\s*CacheUpdate&&\s+cacheUpdate\s*\)')
     ctx.emit('CV_allocAsNecessary_range.body.inc', rng, must_fire=['R17', 'R12', 'R6'], typemap={'bool': 'bool'},
              subs=[('R5', r'\bconst\s+(?=size_t|bool)', '', 'opt'),
@@ -45,7 +53,7 @@ def build(ctx):
                    ('R12', r'allocBufs\s*=\s*cv::alloc<T>\(sizeToAlloc\);', 'allocBufs = G_alloc(sizeToAlloc);', 1),
                    ('R17', r'tryAssignBuffer\((\w+),\s*allocBufs,\s*(\w+),\s*firstAccounted,\s*cacheUpdate\)', r'G_assign(\1, \2)'),
                    ('R2', r'\(bool\)binfo\.bucket', '(binfo.bucket != 0)', 'opt'),
-                   ('R16', ('block', r'for\s*\(size_t bucket = binfo\.bucket; bucket <= bend\.bucket; \+\+bucket\)\s*(?=\{)'), '/* spin until every bucket of the range has been published (progress: not decided) */', 1)])
+                   ('R16', ('block', r'while\s*\(DISPENSO_EXPECT\(' + LOADNULL + r',\s*0\)\)\s*(?=\{)'), SPIN, 1)] + STRAT)
     S = 'specs/c33_convec.c'
     # quick: every index below 2^24 (bucket loops <= 26 iterations); thorough: the full Traits::kMaxVectorSize bound 2^47
     IDXBITS, UNW = (24, 28) if ctx.tier == 'quick' else (47, 52)
@@ -53,7 +61,7 @@ def build(ctx):
                   assumptions=['reference loop for floor(log2) bounded by the bit width 64: unwound completely'])]
     for st, nm in ((0, 'kFullBufferAhead'), (1, 'kHalfBufferAhead'), (2, 'kAsNeeded')):
         d = {'STRATEGY': str(st), 'IDXBITS': str(IDXBITS)}
-        common = dict(defines=d, inst=nm, timeout=900, object_bits=10)
+        common = dict(defines=d, inst=nm, timeout=900, object_bits=10, replay=dict(prog='replay/c33_replay.cpp', args=lambda ce, u: ['40'], no_rlimit=True))
         if st == 0:
             units.append(Unit('ConcurrentVector::bucketAndSubIndex', 'cbmc', S, 'CV_bucketAndSubIndex', replace=['AX_log2'], expect=[r'postcondition'], **common))
         units.append(Unit('ConVecBuffer::allocCheckIndex', 'cbmc', S, 'CV_allocCheckIndex', expect=[r'postcondition'], **common))
